@@ -183,7 +183,13 @@ class Case:
 class Session:
     def __init__(self, ctx):
         self.ctx = ctx
-        self.W = World(ctx)
+        # the extended interpreter of rules/C15_model.py (try / match / with, dict dispatch, n-D gathers, decorators, scan ...) understands
+        # more restructurings of Mechanics.py than the base one; it is a subclass, so everything the base model decides is decided alike
+        try:
+            from .C15_model import DynWorld
+            self.W = DynWorld(ctx)
+        except ImportError:
+            self.W = World(ctx)
         self.V = self.W.I.sym_arr("V", (NNODE, ND))
         self.cases = {}
         self.req_eval = {}
